@@ -11,13 +11,23 @@ def declare(reg):
     reg.record("SearchArgs", {
         "msg_set": "list[MsgElt]", "keyword": "str", "n": "int", "string": "str", "header": "str", "search_key": "ref:IMAPSearch",
     })
+    # ghost view of the sqlite file: g_uid_vv is the *committed* value of user_server.uid_vv (as stored text)
+    reg.classdef("Database", {"g_uid_vv": "str"})
     reg.classdef("PWUser", {"username": "str", "pw_hash": "str", "maildir": "opaque:Path"}, path="asimap/auth.py")
     reg.classdef(
         "PreAuthenticated",
         {"state": "enum:ClientState", "user": "opt[ref:PWUser]", "client": "ref:ClientProxy", "name": "str"},
         path="asimap/client.py",
     )
-    reg.classdef("IMAPUserServer", {"uid_vv": "int", "maildir": "str", "mailbox": "ref:MH"}, path="asimap/user_server.py")
+    reg.classdef(
+        "BaseClientHandler",
+        {"client": "ref:ClientProxy", "mbox": "opt[ref:Mailbox]", "server": "opt[ref:IMAPUserServer]", "state": "enum:ClientState",
+         "tag": "opt[str]", "name": "str"},
+        path="asimap/client.py",
+    )
+    reg.union("HandlerResult", ["None", "bool", "str"])
+    reg.classdef("IMAPUserServer", {"uid_vv": "int", "maildir": "str", "mailbox": "ref:MH", "active_mailboxes": "dict[str,ref:Mailbox]",
+                                    "activating_mailboxes": "dict[str,opaque:Event]", "db": "ref:Database"}, path="asimap/user_server.py")
     # g_out: ghost list of everything pushed to this client, in order
     reg.classdef("ClientProxy", {"name": "str", "g_out": "list[str]", "rem_addr": "str"})
     reg.classdef(
